@@ -40,6 +40,18 @@ theorem inv2d_flat (s : Nat → K) (h : leafDet 2 s ≠ 0) : ∀ i < 2, ∀ j < 
     (try simp only [if_true, OfNat.ofNat_ne_zero, OfNat.zero_ne_ofNat, OfNat.ofNat_ne_one, OfNat.one_ne_ofNat, zero_ne_one, one_ne_zero, if_false, Nat.reduceEqDiff]) <;>
     first | linear_combination hr | ring
 
+set_option maxHeartbeats 8000000 in
+theorem inv4d_flat (s : Nat → K) (h : leafDet 4 s ≠ 0) : ∀ i < 4, ∀ j < 4,
+    ∑ l ∈ Finset.range 4, inv4d s (i * 4 + l) * s (l * 4 + j) = if i = j then 1 else 0 := by
+  have hr := mul_inv_cancel₀ h
+  intro i hi j hj
+  interval_cases i <;> interval_cases j <;>
+    simp only [Finset.sum_range_succ, Finset.sum_range_zero, inv4d, leafDet, loadu2, shuffle_pd, mul2, add2, sub2,
+      mul_sd, add_sd, sub_sd, div_sd, set_sd_one, xorPN, xorNP, V2.get, Nat.reduceMul, Nat.reduceAdd, Nat.reduceMod, Nat.reduceDiv,
+      Nat.reduceLT, Nat.reduceSub, if_true, if_false, zero_add] at hr ⊢ <;>
+    (try simp only [if_true, OfNat.ofNat_ne_zero, OfNat.zero_ne_ofNat, OfNat.ofNat_ne_one, OfNat.one_ne_ofNat, zero_ne_one, one_ne_zero, if_false, Nat.reduceEqDiff]) <;>
+    first | linear_combination hr | ring
+
 /-- a left inverse of a matrix that has a left inverse `Y` with `A*Y = 1` is `Y` -/
 theorem left_inv_unique {n : Nat} (A X Y : Matrix (Fin n) (Fin n) K) (hX : X * A = 1) (hY : Y * A = 1) : X = Y := by
   have hA : A * Y = 1 := mul_eq_one_comm.mp hY
